@@ -290,10 +290,14 @@ def value_specs(tier):
             seen.setdefault(key, v)
         return list(seen.values())[:n]
 
-    l2 = level([["TRUE"], *reps_of(l1, 9)], 2 if tier == "thorough" else 1)
+    big = tier in ("thorough", "deep")
+    l2 = level([["TRUE"], *reps_of(l1, 9 if not big else 16)], 2 if big else 1)
     out = leaves + l1 + l2
-    if tier == "thorough":
-        out += level([["IntV", 1, 3], *reps_of(l2, 8)], 1)
+    if big:
+        l3 = level([["IntV", 1, 3], *reps_of(l2, 14 if tier != "deep" else 24)], 2)
+        out += l3
+        if tier == "deep":
+            out += level([["FALSE"], *reps_of(l3, 12)], 1)
     seen, res = set(), []
     for v in out:
         kx = repr(v)
@@ -559,13 +563,15 @@ def op_specs(tier):
     """Every op class over all rows of the row alphabet (length <= 2, thorough 3 over a smaller
     element set), all tags/variants, optional attributes set to non-default values."""
     rows = T.rows_over(ELEMS, 2)
-    if tier == "thorough":
-        rows += [list(c) for c in itertools.product([BOOL, QB, INT5], repeat=3)]
+    if tier in ("thorough", "deep"):
+        rows += [list(c) for c in itertools.product(ELEMS, repeat=3)]
     small = T.rows_over([BOOL, QB], 2)  # 7 rows
     tiny = [[], [BOOL], [QB, BOOL]]
     variant_lists = [[]] + [[r] for r in small] + [[a, b] for a in small for b in small]
-    if tier == "thorough":
+    if tier in ("thorough", "deep"):
         variant_lists += [[a, b, c] for a in tiny for b in tiny for c in tiny]
+    if tier == "deep":
+        variant_lists += [[a, b, c] for a in small for b in small[:4] for c in small[:3]]
     deltas = [[], ["ext.x", "prelude"]]
     out = [["Module"]]
     for r in rows:
@@ -619,7 +625,7 @@ def op_specs(tier):
     out += [["DivMod", w] for w in range(0, 7)]
     for a in T.arg_specs():
         out.append(["Custom", "e", "with_arg", G([BOOL], []), "", [a]])
-    for v in value_specs("quick")[:60]:
+    for v in value_specs("quick" if tier == "quick" else "thorough")[: 60 if tier == "quick" else (400 if tier == "thorough" else 2000)]:
         out.append(["Const", v])
     seen, res = set(), []
     for o in out:
